@@ -157,7 +157,12 @@ func runC20(r *RunCtx) error {
 			hc := hexsha(d.child)
 			res = e.Run(&fttypes.MsgPostFile{Creator: owner.String(), Account: acctHash, HashParent: hp, HashChild: hc, Contents: d.contents, Viewers: "{}", Editors: fmt.Sprintf(`{"%s":"k"}`, ftkeeper.MakeEditorAddress(d.tn, owner.String())), TrackingNumber: d.tn})
 			if res.Out != OutOk {
-				return fmt.Errorf("C20: post file failed: %s", res.Err)
+				// the owner posts below "s" or below the entry it has just created at MerklePath(parent), with edit rights on
+				// both: a refusal means the parent is not where the plain path's address says it is
+				r.Finding("C20/postfile-path", "a post whose parent was just created at MerklePath(parent) is refused: "+res.Err,
+					map[string]interface{}{"parent": d.parent, "child_hex": hex.EncodeToString([]byte(d.child)), "delivery": di, "error": res.Err})
+				r.Hist("ops", fmt.Sprintf("PostFile(delivery %d) refused", di))
+				continue
 			}
 			var resp fttypes.MsgPostFileResponse
 			if err := resp.Unmarshal(res.Data); err != nil {
